@@ -91,11 +91,23 @@ def extract(path):
         merged[key] += n
         sites.setdefault(key, first_site[(role, ops)])
     programs, first_site = merged, sites
+    # locks that some section acquires again (shared) while it already holds them: a writer queueing in between blocks the second
+    # acquisition for ever, so for these locks the sections that only write-lock them matter too
+    reentered = set()
+    for (role, ops), n in programs.items():
+        have = []
+        for o in ops:
+            if o[0] == "acq":
+                if any(h[0] == o[1] for h in have):
+                    reentered.add(o[1])
+                have.append((o[1], o[2]))
+            elif o[0] == "rel" and (o[1], o[2]) in have:
+                have.remove((o[1], o[2]))
     out = []
     for (role, ops), n in programs.items():
         acqs = [o for o in ops if o[0] in ("acq", "send", "recv")]
-        if len(acqs) < 2:
-            continue      # a single lock with nothing nested: cannot be in a cycle
+        if len(acqs) < 2 and not (len(acqs) == 1 and acqs[0][0] == "acq" and acqs[0][2] == 1 and acqs[0][1] in reentered):
+            continue      # a single lock with nothing nested: cannot be in a cycle (unless somebody re-enters that lock)
         out.append({"role": role, "ops": [list(o) for o in ops], "seen": n, "where": first_site[(role, ops)]})
     out.sort(key=lambda p: (p["role"], p["ops"]))
     return {"programs": out, "events": n_events, "sections": sum(programs.values())}
